@@ -121,6 +121,22 @@ var allErrorCodes = []int32{cqlspec.ErrServer, cqlspec.ErrProtocol, cqlspec.ErrC
 	cqlspec.ErrFunctionFailure, cqlspec.ErrWriteFailure, cqlspec.ErrCDCWriteFailure, cqlspec.ErrCASWriteUnknown, cqlspec.ErrSyntax,
 	cqlspec.ErrUnauthorized, cqlspec.ErrInvalid, cqlspec.ErrConfig, cqlspec.ErrAlreadyExists}
 
+// guardEncode: the simulated node compresses some of its responses with the driver's own
+// compressors (library-compressed blocks); a compressor that panics there is the driver's
+// fault, not the simulator's.
+func guardEncode(k *kernel.Kernel, name string, enc func([]byte) ([]byte, error)) func([]byte) []byte {
+	return func(b []byte) (out []byte) {
+		defer func() {
+			if r := recover(); r != nil {
+				k.Violate("C18", "C18/compressor-panics:"+name, "the %s compressor panicked while encoding a %d byte body: %v", name, len(b), r)
+				out = b
+			}
+		}()
+		out, _ = enc(b)
+		return out
+	}
+}
+
 func runWire(e *Env) {
 	k := e.K
 	tp := k.Tape
@@ -212,11 +228,11 @@ func runWire(e *Env) {
 		case sc.Compression == "snappy" && respCompress == 1:
 			return cqlspec.SnappyEncodeLiteral
 		case sc.Compression == "snappy":
-			return func(b []byte) []byte { out, _ := gocql.SnappyCompressor{}.Encode(b); return out }
+			return guardEncode(k, "snappy", func(b []byte) ([]byte, error) { return gocql.SnappyCompressor{}.Encode(b) })
 		case sc.Compression == "lz4" && respCompress == 1:
 			return cqlspec.CassandraLZ4EncodeLiteral
 		default:
-			return func(b []byte) []byte { out, _ := lz4.LZ4Compressor{}.Encode(b); return out }
+			return guardEncode(k, "lz4", func(b []byte) ([]byte, error) { return lz4.LZ4Compressor{}.Encode(b) })
 		}
 	}
 
